@@ -1,6 +1,7 @@
 package props
 
 import (
+	"time"
 	"encoding/json"
 	"fmt"
 	"os"
@@ -135,6 +136,79 @@ func c01Check(c *C01Case) (msg string, class string) {
 		}
 	}
 	return "", class
+}
+
+// ---- flat, very long program texts (through the binary only: a stack overflow cannot be recovered from) ----
+
+type C01Flat struct {
+	Shape string `json:"shape"`
+	N     int    `json:"n"`
+}
+
+var c01FlatShapes = []string{"blank-lines-between-rules", "comment-lines-between-rules", "crlf-blank-lines-between-rules", "blank-lines-between-statements",
+	"blank-lines-inside-an-array-literal", "blank-lines-before-a-syntax-error", "statements", "semicolons", "rules", "array-literal-elements", "print-arguments", "string-literal", "comment"}
+
+// c01FlatText builds the text and, where the grammar leaves no doubt, the expected output.
+func c01FlatText(c *C01Flat) (text string, wantOut string, wantExit int) {
+	n := c.N
+	rep := strings.Repeat
+	switch c.Shape {
+	case "blank-lines-between-rules":
+		return "BEGIN { print 1 }" + rep("\n", n) + "END { print 2 }", "1\n2\n", 0
+	case "comment-lines-between-rules":
+		return "BEGIN { print 1 }" + rep("\n# c\n", n/2) + "END { print 2 }", "1\n2\n", 0
+	case "crlf-blank-lines-between-rules":
+		return "BEGIN { print 1 }" + rep("\r\n", n/2) + "END { print 2 }", "1\n2\n", 0
+	case "blank-lines-between-statements":
+		return "BEGIN { print 1" + rep("\n", n) + "print 2 }", "1\n2\n", 0
+	case "blank-lines-inside-an-array-literal":
+		return "BEGIN { x = [ 1 ," + rep("\n", n) + "2 ]\nprint x.length() }", "2\n", 0
+	case "blank-lines-before-a-syntax-error":
+		return "BEGIN { print 1 }" + rep("\n", n) + "END { print 2 ) }", "", 1
+	case "statements":
+		return "BEGIN { x = 0\n" + rep("x = x + 1\n", n/12) + "print x }", fmt.Sprintf("%d\n", n/12), 0
+	case "semicolons":
+		return "BEGIN { print 1 " + rep(";", n) + " print 2 }", "", -1
+	case "rules":
+		return rep("BEGIN { n++ }\n", n/12) + "END { print n }", fmt.Sprintf("%d\n", n/12), 0
+	case "array-literal-elements":
+		return "BEGIN { x = [ " + rep("1, ", n/12) + "1 ]\nprint x.length() }", fmt.Sprintf("%d\n", n/12+1), 0
+	case "print-arguments":
+		return "BEGIN { print 1 }\nEND { x = [ " + rep("1, ", 10) + "1 ]\nprint \"\"" + rep(", \"\"", n/48) + " }", "", -1
+	case "string-literal":
+		return "BEGIN { x = \"" + rep("a", n) + "\"\nprint x.length() }", fmt.Sprintf("%d\n", n), 0
+	case "comment":
+		return "BEGIN { print 1 } # " + rep("c", n) + "\nEND { print 2 }", "1\n2\n", 0
+	}
+	return "", "", -1
+}
+
+func c01FlatCheck(c *C01Flat) string {
+	if run.CLIBinary() == "" {
+		return ""
+	}
+	text, wantOut, wantExit := c01FlatText(c)
+	res, err := run.CLI(run.CLIOpts{Args: []string{"-f", "p.jqawk"}, Files: map[string][]byte{"p.jqawk": []byte(text)}, Timeout: 120 * time.Second, MemLimitKB: 6 << 20})
+	if err != nil || res.TimedOut {
+		return "" // inconclusive
+	}
+	desc := fmt.Sprintf("a flat program text (%s, %d repetitions, %d bytes)", c.Shape, c.N, len(text))
+	if res.Signal != "" {
+		return desc + ": the binary was killed by " + res.Signal
+	}
+	if m := run.LooksLikeCrash(res.Stderr); m != "" {
+		return fmt.Sprintf("%s: the binary crashed (%s): %s", desc, m, clip(string(res.Stderr)))
+	}
+	if res.Exit != 0 && res.Exit != 1 {
+		return fmt.Sprintf("%s: the binary exits with status %d: %s", desc, res.Exit, clip(string(res.Stderr)))
+	}
+	if res.Exit == 1 && len(strings.TrimSpace(string(res.Stderr))) == 0 {
+		return desc + ": exit status 1 without a diagnostic"
+	}
+	if wantExit >= 0 && (res.Exit != wantExit || (wantExit == 0 && string(res.Stdout) != wantOut) || (wantExit == 1 && len(res.Stdout) != 0)) {
+		return fmt.Sprintf("%s: exit status %d, output %q (stderr %q); expected exit status %d, output %q", desc, res.Exit, clip(string(res.Stdout)), clip(string(res.Stderr)), wantExit, wantOut)
+	}
+	return ""
 }
 
 func firstN(s string, n int) string {
@@ -363,6 +437,16 @@ func TestC01(t *testing.T) {
 		"G1: programs from seven structured generators, rendered to tokens and hit by 0-3 mutations (delete / duplicate / swap a token, replace a token by a keyword, splice a control keyword as a statement at any statement boundary regardless of context, insert an arbitrary byte or punctuation, truncate), with 0-2 selectors from a pool that includes match blocks executing exit / next / print, and inputs that are the generator's own document or hostile streams (empty, whitespace, truncated, garbage, JSONL, stray brackets, huge numbers, invalid UTF-8). G2 (complete): {next, exit, break, continue, return, return 5} x {BEGIN, END, BEGINFILE, ENDFILE, pattern body, pattern expression via a function, function body, match expression body via a function, match block body, a match block in a while condition / in each clause of a for header / in a for-in iterable / in a method argument, selector via a match block} x {bare, inside while / for / for-in / if} x {no input value, two values, two documents}, each also through the binary with and without -o -. G3: arbitrary byte strings, byte edits of G1 renderings, and hostile constants (nests of ( [ { ! - match to depth 20000, runaway recursion and doubling loops under the cost budget, limits, cyclic values, pathological regexes). G4: every byte prefix of a program text (up to 400 bytes; hand-written texts full of dotted numbers, and random layouts of the C13 generators) as a program and, up to 80 bytes, as a selector. Oracle: the error returned by lang.EvalProgram is nil, SyntaxError, RuntimeError or JsonError; nothing is recovered by recover(); the process survives (in-flight file protocol); every error satisfies the C12 line invariant; sampled cases through the binary: exit status 0 or 1, stderr non-empty iff 1, no panic / fatal error / signal. A run stopped by the cost budget (200k units, verif hook) is inconclusive and counted. Non-trivial: the program parsed and evaluated something, or failed to parse beyond its first token, or is a G2 case. distinct = distinct (program, selectors, input).")
 	defer rec.Finish()
 	rec.Assume("the cost-budget hook (build tag verif) only ever stops a run early; it adds no behaviour")
+	rec.Replayer("flat-text", func(raw json.RawMessage) error {
+		var c C01Flat
+		if err := json.Unmarshal(raw, &c); err != nil {
+			return err
+		}
+		if m := c01FlatCheck(&c); m != "" {
+			return fmt.Errorf("%s", m)
+		}
+		return nil
+	})
 	rec.Replayer("outcome", func(raw json.RawMessage) error {
 		var c C01Case
 		if err := json.Unmarshal(raw, &c); err != nil {
@@ -403,6 +487,24 @@ func TestC01(t *testing.T) {
 		}
 	}
 	rec.Exhaustive("G2: control keyword x place x wrapper x input (complete)")
+	// G4: flat texts of 10^4 .. 1.2 * 10^7 repetitions (blank lines, comment lines, statements,
+	// rules, elements, ...) through the binary
+	if run.CLIBinary() != "" {
+		for i, sh := range c01FlatShapes {
+			if i%nshards != shard {
+				continue
+			}
+			for _, n := range []int{12000, 1200000, 12000000} {
+				c := &C01Flat{Shape: sh, N: n}
+				msg := c01FlatCheck(c)
+				rec.Case(fmt.Sprintf("flat %s %d", sh, n), n >= 1000000, "G4-flat-long-text", "flat:"+sh)
+				if msg != "" {
+					rec.Violation("flat-text", c, "("+sh+")", msg)
+					break
+				}
+			}
+		}
+	}
 	for i, h := range c01Hostile() {
 		if i%nshards != shard {
 			continue
